@@ -80,3 +80,16 @@ pub open spec fn refines_list(opt: Tree, orig: Tree) -> bool {
     forall|env: Tree| (#[trigger] eval_list(opt, env)).len() == eval_list(orig, env).len()
         && forall|i: int| 0 <= i < eval_list(orig, env).len() && (#[trigger] eval_list(orig, env)[i]) is Some ==> eval_list(opt, env)[i] == eval_list(orig, env)[i]
 }
+// cons, and the arities of cons / first / rest (ASSUMED axioms about the CLVM evaluator: op_cons, op_first, op_rest take exactly 2 / 1 / 1 operands)
+pub open spec fn ops1(a: Option<Tree>) -> Seq<Option<Tree>> { Seq::<Option<Tree>>::empty().push(a) }
+pub broadcast axiom fn axiom_cons(a: Tree, b: Tree)
+    ensures #[trigger] op_apply(Tree::Atom(seq![4u8]), ops2(Some(a), Some(b))) == Some(Tree::Pair(Box::new(a), Box::new(b)));
+pub broadcast axiom fn axiom_cons_arity(operands: Seq<Option<Tree>>)
+    requires operands.len() != 2
+    ensures #[trigger] op_apply(Tree::Atom(seq![4u8]), operands) is None;
+pub broadcast axiom fn axiom_first_arity(operands: Seq<Option<Tree>>)
+    requires operands.len() != 1
+    ensures #[trigger] op_apply(Tree::Atom(seq![5u8]), operands) is None;
+pub broadcast axiom fn axiom_rest_arity(operands: Seq<Option<Tree>>)
+    requires operands.len() != 1
+    ensures #[trigger] op_apply(Tree::Atom(seq![6u8]), operands) is None;
